@@ -31,7 +31,8 @@ class RichMrgnEditor:
         for i, loc in enumerate(unique_locations_to_add):
             if loc.index is not None:
                 self._throw_if_index_is_out_of_range(loc.index)
-                if not location_lookup.get_location_by_id(loc.index):
+                # check against the indices placed so far, not only the original MRGN
+                if loc.index not in loc_by_id:
                     new_loc = self._build_new_location_with_index(loc, loc.index)
                     new_locations.append(new_loc)
                     assert loc.index is not None
@@ -44,7 +45,7 @@ class RichMrgnEditor:
                         f"Attempted to add a location to the MRGN whose index {loc.index} "
                         f"is already allocated.  "
                         f"Not replacing.  "
-                        f"Current location: {location_lookup.get_location_by_id(loc.index)}, "
+                        f"Current location: {loc_by_id[loc.index]}, "
                         f"Attempted replacement: {loc}"
                     )
             else:
